@@ -979,6 +979,31 @@ class SubTotalValue:
 GROUPED = SubTotalValue()
 
 
+def get_subtotal_keys(group_type, group_key):
+    """
+    Returns the keys of the groups a row with this grouping key is counted in:
+    its own group and, for rollup and cube, each of its subtotals
+    (where GROUPED replaces the values of the columns that are rolled up)
+    """
+    nb_cols = len(group_key)
+    if group_type == GROUP_BY_TYPE:
+        return [group_key]
+    if group_type == ROLLUP_TYPE:
+        return [
+            tuple(itertools.chain(group_key[:i], [GROUPED] * (nb_cols - i)))
+            for i in range(nb_cols + 1)
+        ]
+    if group_type == CUBE_TYPE:
+        return [
+            tuple(
+                GROUPED if grouping else sub_key
+                for grouping, sub_key in zip(groupings, group_key)
+            )
+            for groupings in itertools.product([True, False], repeat=nb_cols)
+        ]
+    raise NotImplementedError(f"Unknown grouping type: {group_type}")
+
+
 class InternalGroupedDataFrame:
     def __init__(self,
                  jdf, grouping_cols, group_type=GROUP_BY_TYPE,
@@ -1000,7 +1025,8 @@ class InternalGroupedDataFrame:
             GroupedStats(self.grouping_cols,
                          stats,
                          pivot_col=self.pivot_col,
-                         pivot_values=self.pivot_values),
+                         pivot_values=self.pivot_values,
+                         group_type=self.group_type),
             lambda grouped_stats, row: grouped_stats.merge(
                 row,
                 self.jdf.bound_schema
@@ -1012,7 +1038,7 @@ class InternalGroupedDataFrame:
         )
 
         data = []
-        all_stats = self.add_subtotals(aggregated_stats)
+        all_stats = aggregated_stats
         for group_key in all_stats.group_keys:
             key = [(str(key), None if value is GROUPED else value)
                    for key, value in zip(self.grouping_cols, group_key)]
@@ -1071,66 +1097,6 @@ class InternalGroupedDataFrame:
         # noinspection PyProtectedMember
         return self.jdf._with_rdd(self.jdf._sc.parallelize(data), schema=new_schema)
 
-    def add_subtotals(self, aggregated_stats):
-        """
-
-        :type aggregated_stats: GroupedStats
-        """
-        if self.group_type == GROUP_BY_TYPE:
-            return aggregated_stats
-
-        grouping_cols = aggregated_stats.grouping_cols
-        nb_cols = len(grouping_cols)
-        all_stats = {}
-        for group_key, group_stats in aggregated_stats.groups.items():
-            for subtotal_key in self.get_subtotal_keys(group_key, nb_cols):
-                if subtotal_key not in all_stats:
-                    all_stats[subtotal_key] = deepcopy(group_stats)
-                else:
-                    for pivot_value, pivot_stats in group_stats.items():
-                        for subtotal_stat, group_stat in zip(
-                                all_stats[subtotal_key][pivot_value],
-                                pivot_stats
-                        ):
-                            subtotal_stat.mergeStats(
-                                group_stat,
-                                self.jdf.bound_schema
-                            )
-
-        return GroupedStats(
-            grouping_cols=grouping_cols,
-            stats=aggregated_stats.stats,
-            pivot_col=self.pivot_col,
-            pivot_values=self.pivot_values,
-            groups=all_stats
-        )
-
-    def get_subtotal_keys(self, group_key, nb_cols):
-        """
-        Returns a list of tuple
-
-        Each tuple contains:
-        - a subtotal key as a string
-        - a list of boolean corresponding to which groupings where performed
-        """
-        if self.group_type == GROUP_BY_TYPE:
-            return [group_key]
-        if self.group_type == ROLLUP_TYPE:
-            return [
-                tuple(itertools.chain(group_key[:i], [GROUPED] * (nb_cols - i)))
-                for i in range(nb_cols + 1)
-            ]
-        if self.group_type == CUBE_TYPE:
-            result = [
-                tuple(
-                    GROUPED if grouping else sub_key
-                    for grouping, sub_key in zip(groupings, group_key)
-                )
-                for groupings in list(itertools.product([True, False], repeat=nb_cols))
-            ]
-            return result
-        raise NotImplementedError(f"Unknown grouping type: {self.group_type}")
-
     def pivot(self, pivot_col, pivot_values):
         if pivot_values is None:
             distinct_values = self.jdf.select(collect_set(pivot_col)).collect()
@@ -1146,8 +1112,10 @@ class InternalGroupedDataFrame:
 
 
 class GroupedStats:
-    def __init__(self, grouping_cols, stats, pivot_col, pivot_values, groups=None):
+    def __init__(self, grouping_cols, stats, pivot_col, pivot_values, groups=None,
+                 group_type=GROUP_BY_TYPE):
         self.grouping_cols = grouping_cols
+        self.group_type = group_type
         self.stats = stats
         self.pivot_col = pivot_col
         self.pivot_values = pivot_values if pivot_values is not None else [None]
@@ -1162,21 +1130,25 @@ class GroupedStats:
             self.group_keys = list(groups.keys())
 
     def merge(self, row, schema):
-        group_key = tuple(col.eval(row, schema) for col in self.grouping_cols)
-        if group_key not in self.groups:
-            group_stats = {
-                pivot_value: [deepcopy(stat) for stat in self.stats]
-                for pivot_value in self.pivot_values
-            }
-            self.groups[group_key] = group_stats
-            self.group_keys.append(group_key)
-        else:
-            group_stats = self.groups[group_key]
-
+        row_key = tuple(col.eval(row, schema) for col in self.grouping_cols)
         pivot_value = self.pivot_col.eval(row, schema) if self.pivot_col is not None else None
-        if pivot_value in self.pivot_values:
-            for stat in group_stats[pivot_value]:
-                stat.merge(row, schema)
+
+        # Subtotals see the rows in the same order as the groups do: merging
+        # finished groups into subtotals would order them group by group
+        for group_key in get_subtotal_keys(self.group_type, row_key):
+            if group_key not in self.groups:
+                group_stats = {
+                    pivot_value: [deepcopy(stat) for stat in self.stats]
+                    for pivot_value in self.pivot_values
+                }
+                self.groups[group_key] = group_stats
+                self.group_keys.append(group_key)
+            else:
+                group_stats = self.groups[group_key]
+
+            if pivot_value in self.pivot_values:
+                for stat in group_stats[pivot_value]:
+                    stat.merge(row, schema)
 
         return self
 
